@@ -47,6 +47,19 @@ def generate(ctx):
     for i in range(n):
         nops = 40 if quick else rng.choice([20, 40, 80, 160])
         cases.append(coregen.history_case(rng, 'dup', nops, 'DX'))
+    # "the source is never modified", literally: the same histories with every block the library holds made READ-ONLY around each run of
+    # calls that only read what exists (duplicate, queries) — a store into the source, even one that is undone afterwards, faults
+    ro = ('dup', 'size', 'get', 'geto', 'getocs', 'has', 'each', 'gets', 'getn')
+    for c in [c for c in cases if c.line.startswith('hist DX 0 ') and 'dup:' in c.line][:(120 if quick else 600)]:
+        ops = c.line.split(' ', 3)[3].split(';'); out = []; sealed = False
+        for o in ops:
+            r = o.split(':')[0] in ro
+            if r and not sealed: out.append('seal'); sealed = True
+            if not r and sealed: out.append('unseal'); sealed = False
+            out.append(o)
+        if sealed: out.append('unseal')
+        info = dict(c.info); info['tags'] = list(info.get('tags', [])) + ['read-only-source']
+        cases.append(Case('hist DXR 0 ' + ';'.join(out), info))
     return cases
 
 def project(c, out):
